@@ -534,6 +534,11 @@ class MsgPlugin:
 
     def set_item(self, ex, st, recv, key, v):
         from .sym import concrete_str
+        if recv.kind == "selfdict" and key.kind == "fname":
+            # obj.__dict__[field name] = value: the raw slot, no bookkeeping
+            raw = st.heap[(recv.t, "raw")].t
+            st.heap[(recv.t, "raw")] = SV("arr", z3.Store(raw, key.t, to_obj(v)))
+            return True
         if recv.kind == "selfdict":
             k = concrete_str(key.t) if key.kind == "str" else None
             if k in ("_serialized_on_wire", "_unknown_fields"):
@@ -593,13 +598,13 @@ class MsgPlugin:
         return None
 
     def call_other(self, ex, tag, pos, kw, st, node):
-        if tag[0] == "msgcls_ctor" and not pos and set(kw) == {"**"}:
+        if tag[0] == "msgcls_ctor" and not pos and set(kw) <= {"**"}:
             # type(self)(**kwargs): the dataclass __init__ stores every keyword (PLACEHOLDER where absent) and then runs
             # __post_init__ (its contract, verified in this area) on the new object  (A-DATACLASS-INIT)
             ex.assumption("A-DATACLASS-INIT")
             key = f"new!{next(_newctr)}"
             st2 = st.clone()
-            st2.heap[(key, "raw")] = SV("arr", kw["**"].t)
+            st2.heap[(key, "raw")] = SV("arr", kw["**"].t if "**" in kw else z3.K(IntS, PyObj.PPlaceholder))
             st2.heap[(key, "gc")] = SV("arr", z3.Const(f"{key}.gc0", GC_S))
             st2.heap[(key, "_serialized_on_wire")] = sv_bool(z3.Bool(f"{key}.sow0"))
             st2.heap[(key, "_unknown_fields")] = sv_bytes(z3.Const(f"{key}.unk0", BytesS))
